@@ -5,12 +5,16 @@
 #include "../ref/ref.hpp"
 #include <memory>
 #include <sys/mman.h>
+#include <cerrno>
 #include <unistd.h>
 
 namespace lib {
 using ref::Config;
 using fw::Case;
 
+// value of errno when a wrapped library call is entered (0 by default): the answer of a call is a function of its
+// arguments, not of what an earlier, unrelated call left in errno
+inline int &errno_in() { static int v = 0; return v; }
 // the null back end's documented sample private argument (ec_args.priv_args1.null_args.arg1): a harness may set it for
 // the creates it makes; no back end gives it a meaning, so nothing observable may depend on it
 inline uint64_t &null_arg1() { static uint64_t v = 0; return v; }
@@ -193,6 +197,7 @@ struct InBuf {
 
 struct DecodeOut { int rc = 0; bool out_null = true; std::vector<uint8_t> out; uint64_t out_len = 0; int cleanup_rc = 0; };
 inline DecodeOut decode(int desc, FragSet &fs, uint64_t fraglen, int force) {
+    errno = errno_in();
     DecodeOut d;
     char *out = nullptr;
     uint64_t len = 0xDEADBEEFCAFEull;         // poisoned
@@ -215,6 +220,7 @@ inline ReconOut reconstruct(int desc, FragSet &fs, uint64_t fraglen, int dest, c
     memset(out, 0xA5, n ? n : 1);
     // what the caller's buffer held before is the caller's business: optionally it holds a stale fragment
     if (prefill && !prefill->empty()) memcpy(out, prefill->data(), std::min(n, prefill->size()));
+    errno = errno_in();
     r.rc = liberasurecode_reconstruct_fragment(desc, fs.ptrs, fs.count, fraglen, dest, out);
     r.out.assign((uint8_t *)out, (uint8_t *)out + n);
     for (size_t i = 0; i < n; i++) if ((uint8_t)out[i] != 0xA5) { r.untouched = false; break; }
@@ -412,9 +418,11 @@ inline void prehistory(int desc, const Config &g, const std::vector<int> &hist, 
             return frs;
         };
         r.cls("prehistory_kind_" + std::to_string(kind));
+        // some survivors sit at addresses that are not 16-byte aligned (the library re-homes those)
+        auto offsets = [&](size_t count) { std::vector<int> al(count, 0); if (arg & 2048) for (size_t i = 0; i < count; i++) al[i] = ((arg >> (i % 8)) & 1) ? (int)(1 + (arg + i * 7) % 15) : 0; return al; };
         if (kind == 1) {
             auto frs = survivors(lost, n);
-            FragSet fs; fs.build(frs, {});
+            FragSet fs; fs.build(frs, offsets(frs.size()));
             DecodeOut d = decode(desc, fs, fraglen, 0);
             if (d.rc == 0 && d.out != data) r.fail("history decode returned rc 0 with wrong data");
             if (!fs.unchanged()) r.fail("history decode modified an input");
@@ -424,7 +432,7 @@ inline void prehistory(int desc, const Config &g, const std::vector<int> &hist, 
             int dest = (arg / 4) % n;
             std::vector<int> gone; if (kind != 4) gone.push_back(dest);
             auto frs = survivors(gone, n);
-            FragSet fs; fs.build(frs, {});
+            FragSet fs; fs.build(frs, offsets(frs.size()));
             ReconOut o = reconstruct(desc, fs, fraglen, dest);
             if (o.rc == 0 && kind != 4 && o.out != own[dest]) r.fail("history reconstruct returned rc 0 with a fragment that differs from this configuration's own");
             if (!fs.unchanged()) r.fail("history reconstruct modified an input");
